@@ -185,7 +185,7 @@ type Lin struct {
 }
 
 func linConst(c int64) Lin { return Lin{T: map[string]int64{}, C: c} }
-func linAtom(k string) Lin  { return Lin{T: map[string]int64{k: 1}} }
+func linAtom(k string) Lin { return Lin{T: map[string]int64{k: 1}} }
 
 func (a Lin) add(b Lin, sign int64) Lin {
 	r := Lin{T: map[string]int64{}, C: a.C + sign*b.C}
@@ -233,13 +233,15 @@ type Ineq struct {
 
 // Arith is the per-function integer reasoning context.
 type Arith struct {
-	m       *Model
-	fn      *ssa.Function
-	ctx     *FnCtx
-	atoms   map[string]ssa.Value // atom key -> defining value (for axioms)
-	lenOf   map[string]ssa.Value // "len:<key>" -> the container value
-	nonneg  map[string]bool
-	is32bit bool
+	m        *Model
+	fn       *ssa.Function
+	ctx      *FnCtx
+	atoms    map[string]ssa.Value // atom key -> defining value (for axioms)
+	lenOf    map[string]ssa.Value // "len:<key>" -> the container value
+	curIneqs []Ineq               // inequalities of the proof in progress (for conditional axioms)
+	curFacts []Fact
+	nonneg   map[string]bool
+	is32bit  bool
 }
 
 func (m *Model) NewArith(fn *ssa.Function) *Arith {
@@ -488,12 +490,31 @@ func (a *Arith) axioms(form Lin, seen map[string]bool) []Ineq {
 			if x := a.lenOf[k]; x != nil {
 				// len([]rune(s)) <= len(s); len(x[lo:hi]) etc. not needed
 				if cv, ok := x.(*ssa.Convert); ok && isStringT(cv.X.Type()) {
-					out = append(out, Ineq{linAtom(k).add(a.lenLin(cv.X, 0), -1), 0})
+					sl := a.lenLin(cv.X, 0)
+					out = append(out, Ineq{linAtom(k).add(sl, -1), 0})
+					if isRuneSlice(cv.Type()) {
+						// every rune consumes at most 4 bytes: len(s) <= 4*len(runes); in integers
+						// this gives len(runes) >= 1 whenever len(s) >= 1
+						out = append(out, mkIneq(sl.add(linAtom(k).scale(4), -1), 0))
+						if a.proveLE(sl.scale(-1), -1, a.curIneqs, 2) {
+							out = append(out, Ineq{linAtom(k).scale(-1), -1})
+						}
+					}
 				}
 				if call, ok := x.(*ssa.Call); ok {
 					if sc := call.Call.StaticCallee(); sc != nil && fnFullName(sc) == "strings.Split" {
 						if sep, ok := call.Call.Args[1].(*ssa.Const); ok && !isEmptyStringConst(sep) {
 							out = append(out, Ineq{linAtom(k).scale(-1), -1}) // at least one piece
+							// strings.Contains(s, sep) known to hold: at least two pieces
+							for _, f := range a.curFacts {
+								fc, ok := f.Cond.(*ssa.Call)
+								if !ok || !f.Holds || fc.Call.StaticCallee() == nil || fnFullName(fc.Call.StaticCallee()) != "strings.Contains" {
+									continue
+								}
+								if a.canonKey(fc.Call.Args[0]) == a.canonKey(call.Call.Args[0]) && a.canonKey(fc.Call.Args[1]) == a.canonKey(call.Call.Args[1]) {
+									out = append(out, Ineq{linAtom(k).scale(-1), -2})
+								}
+							}
 						}
 					}
 				}
@@ -564,7 +585,7 @@ func (a *Arith) axioms(form Lin, seen map[string]bool) []Ineq {
 						xl := a.lin(x.X)
 						if a.proveLE(xl.scale(-1), 0, nil, 2) { // X >= 0
 							out = append(out, mkIneq(linAtom(k).add(xl, -1), 0)) // X/d <= X
-							out = append(out, Ineq{linAtom(k).scale(-1), 0})       // X/d >= 0
+							out = append(out, Ineq{linAtom(k).scale(-1), 0})     // X/d >= 0
 						}
 					}
 				}
@@ -723,6 +744,9 @@ func (a *Arith) ineqsFrom(facts []Fact) []Ineq {
 
 func (a *Arith) proveWithPhis(form Lin, k int64, pt point, depth int, busy map[*ssa.Phi]bool) bool {
 	ineqs := a.ineqsFrom(pt.facts)
+	saved, savedF := a.curIneqs, a.curFacts
+	a.curIneqs, a.curFacts = ineqs, pt.facts
+	defer func() { a.curIneqs, a.curFacts = saved, savedF }()
 	if a.proveLE(form, k, ineqs, 4) {
 		return true
 	}
@@ -828,7 +852,7 @@ type FnCtx struct {
 	reach   map[*ssa.BasicBlock]map[*ssa.BasicBlock]bool // strict: path of >=1 edge
 	idx     map[ssa.Instruction]int
 	writers map[fieldID][]ssa.Instruction // instructions in fn that may write the field
-	loads   map[string][]ssa.Value       // root+path -> loads in fn (dominance order not guaranteed)
+	loads   map[string][]ssa.Value        // root+path -> loads in fn (dominance order not guaranteed)
 	vers    map[ssa.Value]string
 }
 
@@ -899,6 +923,43 @@ func (c *FnCtx) instrReaches(a, b ssa.Instruction) bool {
 	return c.reach[a.Block()][b.Block()]
 }
 
+// pathAvoiding: is there a control-flow path from just after src to dst that
+// does not execute `avoid` on the way (avoid == src is the usual case: "without
+// re-executing src")?
+func (c *FnCtx) pathAvoiding(src, dst, avoid ssa.Instruction) bool {
+	sb, db, ab := src.Block(), dst.Block(), avoid.Block()
+	si, di, ai := c.idx[src], c.idx[dst], c.idx[avoid]
+	// within the source block, after src
+	if sb == db && si < di {
+		if !(ab == sb && ai > si && ai < di) {
+			return true
+		}
+	}
+	if ab == sb && ai > si {
+		return false // cannot leave the block without executing avoid
+	}
+	seen := map[*ssa.BasicBlock]bool{}
+	stack := append([]*ssa.BasicBlock{}, sb.Succs...)
+	for len(stack) > 0 {
+		b := stack[len(stack)-1]
+		stack = stack[:len(stack)-1]
+		if seen[b] {
+			continue
+		}
+		seen[b] = true
+		if b == db {
+			if !(ab == b && ai < di) {
+				return true
+			}
+		}
+		if b == ab {
+			continue // executing avoid: do not go past it
+		}
+		stack = append(stack, b.Succs...)
+	}
+	return false
+}
+
 func (c *FnCtx) instrDominates(a, b ssa.Instruction) bool {
 	if a.Block() == b.Block() {
 		return c.idx[a] <= c.idx[b]
@@ -958,7 +1019,7 @@ func (c *FnCtx) version(v, root ssa.Value, path string) string {
 			}
 			killed := false
 			for _, w := range ws {
-				if c.instrReaches(lin0, w) && c.instrReaches(w, vin) {
+				if c.pathAvoiding(lin0, w, lin0) && c.pathAvoiding(w, vin, lin0) {
 					killed = true
 					break
 				}
@@ -1041,7 +1102,7 @@ func (c *FnCtx) bufVersion(recv ssa.Value, at ssa.Instruction) string {
 		}
 		killed := false
 		for _, w := range muts {
-			if c.instrReaches(l, w) && c.instrReaches(w, at) {
+			if c.pathAvoiding(l, w, l) && c.pathAvoiding(w, at, l) {
 				killed = true
 				break
 			}
@@ -1182,4 +1243,13 @@ func (m *Model) NonnegInv() *nonnegInv {
 	}
 	m.invDone = true
 	return inv
+}
+
+func isRuneSlice(t types.Type) bool {
+	sl, ok := t.Underlying().(*types.Slice)
+	if !ok {
+		return false
+	}
+	b, ok := sl.Elem().Underlying().(*types.Basic)
+	return ok && b.Kind() == types.Int32
 }
